@@ -400,5 +400,171 @@ func init() {
 			}
 		}
 		fmt.Fprintf(&e.out, "def lockedBeforeAccess : List String := %s\n", lst(locked))
+
+		// ==== extension 2: event shapes, handler wiring, read-only steps ====
+		d2 := "pkg/util/reservation"
+		// clause types of the first type switch of a function ("default" for the default clause), in source order
+		switchCases := func(dir, recv, name string) []string {
+			fd := e.funcDecl(dir, recv, name)
+			if fd == nil {
+				e.fail("%s.%s not found", recv, name)
+				return nil
+			}
+			var out []string
+			done := false
+			ast.Inspect(fd.Body, func(n ast.Node) bool {
+				ts, ok := n.(*ast.TypeSwitchStmt)
+				if !ok || done {
+					return !done
+				}
+				done = true
+				for _, st := range ts.Body.List {
+					cc := st.(*ast.CaseClause)
+					if cc.List == nil {
+						out = append(out, "default")
+					}
+					for _, x := range cc.List {
+						out = append(out, types.ExprString(x))
+					}
+				}
+				return false
+			})
+			return out
+		}
+		// asserted types `x.(T)` of a function outside type switches, in source order
+		asserts := func(dir, recv, name string) []string {
+			fd := e.funcDecl(dir, recv, name)
+			if fd == nil {
+				e.fail("%s.%s not found", recv, name)
+				return nil
+			}
+			var out []string
+			ast.Inspect(fd.Body, func(n ast.Node) bool {
+				if ta, ok := n.(*ast.TypeAssertExpr); ok && ta.Type != nil {
+					out = append(out, types.ExprString(ta.X)+".("+types.ExprString(ta.Type)+")")
+				}
+				return true
+			})
+			return out
+		}
+		fmt.Fprintf(&e.out, "def onPodDelete_cases : List String := %s\n", lst(switchCases(d, "nodeDeviceCache", "onPodDelete")))
+		fmt.Fprintf(&e.out, "def onPodDelete_asserts : List String := %s\n", lst(asserts(d, "nodeDeviceCache", "onPodDelete")))
+		fmt.Fprintf(&e.out, "def onPodAdd_asserts : List String := %s\n", lst(asserts(d, "nodeDeviceCache", "onPodAdd")))
+		fmt.Fprintf(&e.out, "def onPodUpdate_asserts : List String := %s\n", lst(asserts(d, "nodeDeviceCache", "onPodUpdate")))
+		fmt.Fprintf(&e.out, "def rsvOnDelete_cases : List String := %s\n", lst(switchCases(d2, "ReservationToPodEventHandler", "OnDelete")))
+		fmt.Fprintf(&e.out, "def rsvOnDelete_asserts : List String := %s\n", lst(asserts(d2, "ReservationToPodEventHandler", "OnDelete")))
+		fmt.Fprintf(&e.out, "def rsvOnAdd_asserts : List String := %s\n", lst(asserts(d2, "ReservationToPodEventHandler", "OnAdd")))
+		fmt.Fprintf(&e.out, "def rsvOnUpdate_asserts : List String := %s\n", lst(asserts(d2, "ReservationToPodEventHandler", "OnUpdate")))
+		fmt.Fprintf(&e.out, "def rsvFilter_asserts : List String := %s\n", lst(asserts(d2, "", "IsObjValidActiveReservation")))
+		// the filter is a FilteringResourceEventHandler whose Handler is the ReservationToPodEventHandler
+		var wrap []string
+		if fd := e.funcDecl(d2, "", "NewReservationToPodEventHandler"); fd != nil {
+			ast.Inspect(fd.Body, func(n ast.Node) bool {
+				if cl, ok := n.(*ast.CompositeLit); ok && cl.Type != nil {
+					var keys []string
+					for _, el := range cl.Elts {
+						if kv, ok := el.(*ast.KeyValueExpr); ok {
+							keys = append(keys, types.ExprString(kv.Key))
+						}
+					}
+					wrap = append(wrap, types.ExprString(cl.Type)+"{"+strings.Join(keys, ",")+"}")
+				}
+				return true
+			})
+		} else {
+			e.fail("NewReservationToPodEventHandler not found")
+		}
+		fmt.Fprintf(&e.out, "def rsvHandler_wrapping : List String := %s\n", lst(wrap))
+		// registerPodEventHandler: which cache method serves which informer callback; what the reservation informer gets
+		var wiring []string
+		if fd := e.funcDecl(d, "", "registerPodEventHandler"); fd != nil {
+			ast.Inspect(fd.Body, func(n ast.Node) bool {
+				if cl, ok := n.(*ast.CompositeLit); ok && cl.Type != nil && strings.HasSuffix(types.ExprString(cl.Type), "ResourceEventHandlerFuncs") {
+					for _, el := range cl.Elts {
+						if kv, ok := el.(*ast.KeyValueExpr); ok {
+							wiring = append(wiring, types.ExprString(kv.Key)+"="+types.ExprString(kv.Value))
+						}
+					}
+				}
+				return true
+			})
+		} else {
+			e.fail("registerPodEventHandler not found")
+		}
+		fmt.Fprintf(&e.out, "def podHandler_wiring : List String := %s\n", lst(wiring))
+		fmt.Fprintf(&e.out, "def rsvHandler_args : List String := %s\n", lst(argsOf("", "registerPodEventHandler", "NewReservationToPodEventHandler")))
+
+		// what is STORED into a map slot: right-hand sides of `<lhsPrefix>[…] = rhs`, in source order
+		stores := func(recv, name, lhsPrefix string) []string {
+			fd := e.funcDecl(d, recv, name)
+			if fd == nil {
+				e.fail("%s.%s not found", recv, name)
+				return nil
+			}
+			var out []string
+			ast.Inspect(fd.Body, func(n ast.Node) bool {
+				as, ok := n.(*ast.AssignStmt)
+				if !ok || len(as.Lhs) != 1 || len(as.Rhs) != 1 {
+					return true
+				}
+				if ix, ok := as.Lhs[0].(*ast.IndexExpr); ok && types.ExprString(ix.X) == lhsPrefix {
+					out = append(out, types.ExprString(as.Rhs[0]))
+				}
+				return true
+			})
+			return out
+		}
+		fmt.Fprintf(&e.out, "def append_stores : List String := %s\n", lst(stores("deviceResources", "append", "r")))
+		fmt.Fprintf(&e.out, "def append_helpers : List String := %s\n", lst(func() []string {
+			if fd := e.funcDecl(d, "deviceResources", "append"); fd != nil {
+				return pkgCalls(fd.Body, "quotav1", "util")
+			}
+			return nil
+		}()))
+		fmt.Fprintf(&e.out, "def appendAllocated_stores : List String := %s\n", lst(stores("", "appendAllocated", "m")))
+		fmt.Fprintf(&e.out, "def getUsed_stores : List String := %s\n", lst(stores("nodeDevice", "getUsed", "resourcesCopy")))
+		fmt.Fprintf(&e.out, "def subtract_helpers : List String := %s\n", lst(func() []string {
+			if fd := e.funcDecl(d, "deviceResources", "subtract"); fd != nil {
+				return pkgCalls(fd.Body, "quotav1", "util")
+			}
+			return nil
+		}()))
+		// the read-only steps: which lock methods they call on a nodeDevice lock, and what they hand to the append / subtract helpers
+		lockCalls := func(recv, name string) string {
+			fd := e.funcDecl(d, recv, name)
+			if fd == nil {
+				e.fail("%s.%s not found", recv, name)
+				return name + ":?"
+			}
+			set := map[string]bool{}
+			ast.Inspect(fd.Body, func(n ast.Node) bool {
+				if c, ok := n.(*ast.CallExpr); ok {
+					if s, ok := c.Fun.(*ast.SelectorExpr); ok && selName(s.X) == "lock" {
+						set[s.Sel.Name] = true
+					}
+				}
+				return true
+			})
+			var ks []string
+			for k := range set {
+				ks = append(ks, k)
+			}
+			sort.Strings(ks)
+			return name + ":" + strings.Join(ks, ",")
+		}
+		var roLocks []string
+		for _, f := range []string{"AddPod", "RemovePod", "RestoreReservation", "RestoreReservationPreAllocation", "Filter", "FilterNominateReservation"} {
+			roLocks = append(roLocks, lockCalls("Plugin", f))
+		}
+		fmt.Fprintf(&e.out, "def readonly_locks : List String := %s\n", lst(roLocks))
+		fmt.Fprintf(&e.out, "def removePod_append : List String := %s\n", lst(argsOf("Plugin", "RemovePod", "appendAllocated")))
+		fmt.Fprintf(&e.out, "def addPod_subtract : List String := %s\n", lst(argsOf("Plugin", "AddPod", "subtractAllocated")))
+		fmt.Fprintf(&e.out, "def removePod_getUsed : List String := %s\n", lst(argsOf("Plugin", "RemovePod", "getUsed")))
+		fmt.Fprintf(&e.out, "def restore_getUsed : List String := %s\n", lst(argsOf("Plugin", "RestoreReservation", "getUsed")))
+		fmt.Fprintf(&e.out, "def restore_appendByHints : List String := %s\n", lst(argsOf("Plugin", "RestoreReservation", "appendAllocatedByHints")))
+		fmt.Fprintf(&e.out, "def restore_subtract : List String := %s\n", lst(argsOf("Plugin", "RestoreReservation", "subtractAllocated")))
+		fmt.Fprintf(&e.out, "def merge_subtract : List String := %s\n", lst(argsOf("nodeReservationRestoreStateData", "mergeReservationAllocations", "subtractAllocated")))
+		fmt.Fprintf(&e.out, "def merge_append : List String := %s\n", lst(argsOf("nodeReservationRestoreStateData", "mergeReservationAllocations", "appendAllocated")))
+		fmt.Fprintf(&e.out, "def filter_append : List String := %s\n", lst(argsOf("Plugin", "Filter", "appendAllocated")))
 	}
 }
